@@ -1624,7 +1624,7 @@ func main() {
 	deep := map[string]bool{"P2WSH": true}
 	r.Budget = 150 * time.Second
 	if r.Thorough() {
-		deepDepth, shallowDepth, configDepth = 6, 5, 6
+		deepDepth, shallowDepth, configDepth = 6, 5, 5
 		deep = map[string]bool{"P2WSH": true, "P2PKH": true}
 		r.Budget = 25 * time.Minute
 	}
